@@ -163,9 +163,20 @@ def framing(a: str, b: str, p1: str, p2: str, q1: str, q2: str) -> bool:
     """
     headers = _values(a, b, p1, p2, q1, q2)
     version = (1, 1) if CASE["v11"] else (1, 0)
-    got, _ = decide(version, headers)
+    # the client's wish to keep the connection must never override a framing gunicorn itself cannot trust
+    got, r = decide(version, headers + [("CONNECTION", "keep-alive")])
     want = ref.framing(version, headers)
-    return agree(got, want, headers)
+    if not agree(got, want, headers):
+        return False
+    if got[0] == "length" and want == ref.LENIENT:
+        # Transfer-Encoding without chunked was accepted: if a real transfer coding (not identity) is announced the
+        # body cannot be delimited - nothing after this request may be parsed from the connection
+        for name, value in headers:
+            if name == "TRANSFER-ENCODING":
+                cs = ref.te_codings(value)
+                if cs is not None and any(c != "identity" for c in cs) and not r.should_close():
+                    return False
+    return True
 
 
 def framing_twin(a: str, b: str, p1: str, p2: str, q1: str, q2: str) -> bool:
